@@ -169,9 +169,11 @@ def main():
         return
     out, n, seed, files = sys.argv[2], int(sys.argv[3]), int(sys.argv[4]), sys.argv[5:]
     r = random.Random(seed)
+    wt = "/tmp/mutant-wt-%d" % os.getpid()
+    sh(["git", "-C", REPO, "worktree", "add", "-q", "--detach", "-f", wt, "HEAD"])
     allsites = []
     for f in files:
-        _, ss = sites(os.path.join(REPO, "sievelib", f))
+        _, ss = sites(os.path.join(wt, "sievelib", f))      # the committed source (the working tree of /repo may be in use)
         allsites += [(f, s_) for s_ in ss]
     done = set()
     if os.path.exists(out):
@@ -179,8 +181,6 @@ def main():
             d = json.loads(l)
             done.add((d["file"], d["line"], d["op"], d["new"]))
     pick = r.sample(allsites, min(n, len(allsites)))
-    wt = "/tmp/mutant-wt-%d" % os.getpid()
-    sh(["git", "-C", REPO, "worktree", "add", "-q", "--detach", "-f", wt, "HEAD"])
     try:
         for f, s_ in pick:
             if (f, s_["line"], s_["op"], s_["new"][:160]) in done:
